@@ -69,21 +69,23 @@ def op_census(ctx, trace):
 
 
 # --------------------------------------------------------------------------- model checking + generation
-def mc_index(ctx, alpha, depth, kd, code_devs, emit=True, expect_violation=False):
-    cfg = ctx.path(f"mc_index_{alpha}_{depth}.cfg")
-    inv = ["Refines", "Coherent", "Bounded", "GhostExact", "NoDevNeeded"] + (["Emit"] if emit else [])
-    lib.write_cfg(cfg, {"UpdCap": MODEL_CAP, "KnownDeviations": lib.tla_set(kd), "D": depth, "Alpha": f'"{alpha}"',
+def mc_index(ctx, alpha, depth, kd, code_devs, pre="none", emit=True, expect_violation=False):
+    cfg = ctx.path(f"mc_index_{alpha}_{pre}_{depth}.cfg")
+    inv = ["Refines", "Coherent", "Bounded", "GhostExact", "AckedUpper", "NoDevNeeded"] + (["Emit"] if emit else [])
+    lib.write_cfg(cfg, {"UpdCap": MODEL_CAP, "KnownDeviations": lib.tla_set(kd), "D": depth, "Alpha": f'"{alpha}"', "PreName": f'"{pre}"',
                         "CodeDevs": lib.tla_set(code_devs)}, "MCInit", "MCNext", invariants=inv)
-    progs = ctx.path(f"prog_index_{alpha}_{depth}.ndjson")
+    progs = ctx.path(f"prog_index_{alpha}_{pre}_{depth}.ndjson")
     r = lib.tlc(ctx, "MC_KvIndex", cfg, tagged_out={"PROGRAM": progs}, timeout=1500, expect_violation=expect_violation)
+    if not emit:
+        os.remove(progs)
     return r, progs
 
 
-def mc_res(ctx, depth):
-    cfg = ctx.path(f"mc_res_{depth}.cfg")
-    lib.write_cfg(cfg, {"D": depth}, "MCInit", "MCNext",
+def mc_res(ctx, depth, pre="none"):
+    cfg = ctx.path(f"mc_res_{pre}_{depth}.cfg")
+    lib.write_cfg(cfg, {"D": depth, "PreName": f'"{pre}"'}, "MCInit", "MCNext",
                   invariants=["Refines", "FilterSound", "SaveLoadId", "PathsAgree", "Emit"])
-    progs = ctx.path(f"prog_res_{depth}.ndjson")
+    progs = ctx.path(f"prog_res_{pre}_{depth}.ndjson")
     r = lib.tlc(ctx, "MC_Residency", cfg, tagged_out={"PROGRAM": progs}, timeout=1500)
     return r, progs
 
@@ -118,7 +120,7 @@ def generated(ctx, sys_, label, r, progs, kd, keep=False):
 def design_checks(ctx, kd):
     """The ideal design refines the property with no deviation; each known code defect, put into the code-shaped
     model alone and without its deviation, is refuted by TLC (the finding's model-level witness)."""
-    r, _ = mc_index(ctx, "lean", 3, [], [], emit=False)
+    r, _ = mc_index(ctx, "lean", 3, [], [], pre="boundary", emit=False)
     r2, _ = mc_index(ctx, "zero", 4, [], [], emit=False)
     ctx.cov["states"] += r["distinct"] + r2["distinct"]
     ctx.cov["transitions"] += r["generated"] + r2["generated"]
@@ -222,34 +224,45 @@ def replay(ctx, kd):
 def run(ctx):
     merge_known(ctx)
     kd = lib.known_ids(ctx, PROP)
+    if os.environ.get("VERIF_C05_KD") is not None:
+        # development aid (like VERIF_REPO): pretend only these findings are listed, e.g. to see a fix turn
+        # the check green without its deviation, or a known finding turn it red. Registered commands never set it.
+        kd = [x for x in os.environ["VERIF_C05_KD"].split(",") if x]
     code_devs = [f for f in CODE_DEFECTS if f in kd]
     lib.build(["drv_index"])
     if ctx.replay:
         return replay(ctx, kd)
     if ctx.quick:
-        plan = [("lean", 4), ("full", 3), ("two", 3), ("zero", 4)]
-        res_depth = 3
+        plan = [("lean", "none", 4), ("lean", "sorted", 3), ("lean", "boundary", 3), ("full", "none", 3),
+                ("two", "none", 3), ("two", "boundary", 2), ("zero", "none", 4), ("zero", "sorted", 3)]
+        res_plan = [("none", 3), ("saved", 3)]
         rnd_index = ["--random-index", 40, "--len", 300, "--long", 4, "--long-len", 3000]
         rnd_res = ["--random-res", 64, "--len", 300]
     else:
-        plan = [("full", 4), ("lean", 5), ("two", 4), ("zero", 5)]
-        res_depth = 4
+        plan = [("full", "none", 4), ("full", "sorted", 3), ("full", "boundary", 3), ("lean", "none", 5), ("lean", "sorted", 4),
+                ("lean", "boundary", 4), ("two", "none", 4), ("two", "sorted", 3), ("two", "boundary", 3),
+                ("zero", "none", 5), ("zero", "sorted", 4)]
+        res_plan = [("none", 4), ("saved", 4)]
         rnd_index = ["--random-index", 300, "--len", 300, "--long", 40, "--long-len", 3000]
         rnd_res = ["--random-res", 400, "--len", 400]
     design_checks(ctx, kd)
     first = True
-    for alpha, depth in plan:
-        r, progs = mc_index(ctx, alpha, depth, kd, code_devs)
-        label = f"MC_KvIndex alpha={alpha} depth={depth}"
+    for alpha, pre, depth in plan:
+        r, progs = mc_index(ctx, alpha, depth, kd, code_devs, pre=pre)
+        label = f"MC_KvIndex alpha={alpha} prefix={pre} depth={depth}"
         trace = generated(ctx, "index", label, r, progs, kd, keep=first)
         if first:
             selftest(ctx, "index", trace, kd)
             os.remove(trace)
             first = False
-    r, progs = mc_res(ctx, res_depth)
-    trace = generated(ctx, "res", f"MC_Residency depth={res_depth}", r, progs, kd, keep=True)
-    selftest(ctx, "res", trace, kd)
-    os.remove(trace)
+    first = True
+    for pre, depth in res_plan:
+        r, progs = mc_res(ctx, depth, pre=pre)
+        trace = generated(ctx, "res", f"MC_Residency prefix={pre} depth={depth}", r, progs, kd, keep=first)
+        if first:
+            selftest(ctx, "res", trace, kd)
+            os.remove(trace)
+            first = False
     random_tier(ctx, "index", rnd_index, f"random index seed={ctx.seed}", kd)
     random_tier(ctx, "res", rnd_res, f"random residency seed={ctx.seed}", kd)
     ctx.cov["evaluations"] = ctx.cov["traces_validated_against_impl"]
